@@ -18,7 +18,7 @@ ENGINE = "iosim"
 LEVEL = "exploration"
 BUDGET = {"quick": 60, "thorough": 1200}
 RUN_TIMEOUT = 120
-REPLAY_TRIES = 6
+REPLAY_TRIES = 24
 SELFTEST_PAIRS = {"quick": 16, "thorough": 40}
 PROBES = ["accepted_after_fault", "fault_free_result", "result_with_images", "result_with_tables", "result_with_units", "placeholder_image_with_error",
           "doc_properties_compared", "path_none", "path_existing_file", "path_member_form", "non_bmp_text", "entry_attachment", "entry_archive", "earlier_documents_in_process", "path_context_changed"]
@@ -57,7 +57,9 @@ def gen_case(rng: random.Random, tier: str) -> dict:
         # history: other documents of the same family are extracted (and dropped) earlier in the same process
         fam = [n for n in iosim.names() if iosim.ext_of(n) == iosim.ext_of(c["doc"]) and n != c["doc"] and "password" not in n]
         if fam:
-            c["prelude"] = [rng.choice(fam) for _ in range(rng.choice([1, 2, 4, 9]))]
+            c["prelude"] = [rng.choice(fam) for _ in range(rng.choice([1, 2, 4, 9, 9, 14]))]
+            if rng.random() < 0.6:
+                c["ops"], c["ole"] = [], None  # the stored-properties differential needs the fault-free document: what the history may change is its report
     if rng.random() < 0.3:
         c["recheck"] = rng.choice(["chdir", "create_file", "both", "exists_in_both_cwds", "exists_in_both_cwds"])  # same path string, changed file-system context
         c["entry"] = "direct"
